@@ -27,7 +27,7 @@ meta = {
     'confirmed_by_me': {
         'commands': [
             'PYTHONPATH=<worktree> /venv/bin/python _seed/demo.py   (modified tree)  -> exit 1',
-            'git stash -- dassh; same command (clean tree) -> exit 0; git stash pop',
+            'git apply -R _seed/patch.diff; same command (clean tree) -> exit 0; git apply _seed/patch.diff',
             'full pytest on the modified tree (by the sub-agent): all 268 baseline-passing tests still pass',
             'git -C /repo apply patch.diff; /verif/check %s --repo /repo; git -C /repo checkout -- .' % prop],
         'demo_on_modified_tree': tail('/tmp/seed_%s.mod.out' % prop),
